@@ -182,6 +182,8 @@ def steady_state_transport_solver(
     # Fourier summation index
     ilx = fftfreq(nlx, d=1.0 / nlx)
     ily = fftfreq(nly, d=1.0 / nly)
+    if _verif.ON:
+        _verif.emit("modes", ilx=[int(k) for k in ilx], ily=[int(k) for k in ily])
 
     # define truncated zonal and meridional wavenumbers
     lx = 2.0 * np.pi / dx / nxe * ilx
